@@ -43,6 +43,9 @@ type Disk struct {
 
 	// Free-space budget in bytes (<0 = unlimited); reported by DiskUsage, enforced as ENOSPC.
 	Capacity int64
+	// Mounts: directories that are file systems of their own, with their own capacity
+	// (DiskUsage of a path below a mount reports that mount).
+	Mounts map[string]int64
 	// AvailMem is what VirtualMemory reports as available.
 	AvailMem uint64
 
@@ -710,11 +713,41 @@ type UsageStat struct {
 	UsedPercent float64
 }
 
+// UsedUnder returns the bytes allocated below directory dir.
+func (d *Disk) UsedUnder(dir string) int64 {
+	var s int64
+	for p, f := range d.files {
+		if strings.HasPrefix(p, dir+"/") {
+			s += int64(len(f.data))
+		}
+	}
+	return s
+}
+
 func DiskUsage(p string) (*UsageStat, error) {
 	d := Cur
 	_, a := d.event("statfs", clean(p), 0, 0)
 	if a == ErrIO {
 		return nil, pathErr("statfs", p, syscall.EIO)
+	}
+	cp := clean(p)
+	best := ""
+	for m := range d.Mounts {
+		if (cp == m || strings.HasPrefix(cp, m+"/")) && len(m) > len(best) {
+			best = m
+		}
+	}
+	if best != "" {
+		used := uint64(d.UsedUnder(best))
+		c := d.Mounts[best]
+		if c < 0 {
+			return &UsageStat{Path: p, Total: 1 << 50, Free: 1<<50 - used, Used: used}, nil
+		}
+		free := uint64(0)
+		if uint64(c) > used {
+			free = uint64(c) - used
+		}
+		return &UsageStat{Path: p, Total: uint64(c), Free: free, Used: used}, nil
 	}
 	used := uint64(d.Used())
 	if d.Capacity < 0 {
